@@ -420,6 +420,12 @@ pub mod fs {
     }
 
     // ---- writing -------------------------------------------------------------------------
+    /// the handle belongs to an async runtime (async-std / tokio `fs::File` opened for writing):
+    /// `write`/`write_all` only fill a user-space buffer, the data reaches the file - and a
+    /// write error reaches the caller - at `flush` (dropping the handle writes in the
+    /// background and discards the result).  `file_pending` is what sits in that buffer.
+    pub uninterp spec fn file_buffered(f: File) -> bool;
+    pub uninterp spec fn file_pending(f: File) -> Seq<u8>;
     #[verifier::external_body]
     pub struct OpenOptions { o: u8 }
     impl View for OpenOptions { type V = OpenMode; uninterp spec fn view(&self) -> OpenMode; }
@@ -456,6 +462,7 @@ pub mod fs {
                     &&& (final(w).fs != old(w).fs ==> final(w).hist == old(w).hist.push(final(w).fs))
                     &&& r->Ok_0@.path == q && r->Ok_0@.content == bytes0 && r->Ok_0@.pos == 0 && r->Ok_0@.mode == self@ && (old(w).healthy ==> r->Ok_0@.reliable)
                     &&& bytes0.len() <= usize::MAX
+                    &&& !file_buffered(r->Ok_0)
                 },
                 old(w).healthy && (self@.write || self@.append) && self@.create && old(w).fs.dirs.contains(parent_of(p.pathv()))
                     && !old(w).fs.dirs.contains(p.pathv()) && !old(w).fs.links.contains_key(p.pathv()) ==> r is Ok,
@@ -488,7 +495,7 @@ pub mod fs {
 
     impl io::Write for File {
         open spec fn wr_inv(&self, w: World) -> bool { (self@.mode.write || self@.mode.append) && w.fs.files.contains_key(self@.path) }
-        open spec fn wr_sink(&self, w: World) -> Seq<u8> { w.fs.files[self@.path] }
+        open spec fn wr_sink(&self, w: World) -> Seq<u8> { if file_buffered(*self) { w.fs.files[self@.path] + file_pending(*self) } else { w.fs.files[self@.path] } }
         open spec fn wr_step(pre_s: Self, pre: World, post_s: Self, post: World) -> bool {
             &&& post_s@.path == pre_s@.path && post_s@.mode == pre_s@.mode
             &&& same_except(pre.fs, post.fs, pre_s@.path) && post.fs.dirs == pre.fs.dirs
@@ -502,21 +509,36 @@ pub mod fs {
         #[verifier::external_body]
         fn write(&mut self, buf: &[u8], Tracked(w): Tracked<&mut World>) -> (r: io::Result<usize>)
             ensures
-                r is Ok ==> file_write_post(old(self)@, final(self)@, *old(w), *final(w), buf@, r->Ok_0 as int),
-                r is Ok && old(w).healthy ==> r->Ok_0 == buf@.len(),
-                r is Err ==> final(self)@ == old(self)@ && final(w).fs == old(w).fs && final(w).hist == old(w).hist && final(w).healthy == old(w).healthy,
+                file_buffered(*final(self)) == file_buffered(*old(self)),
+                !file_buffered(*old(self)) ==> {
+                    &&& (r is Ok ==> file_write_post(old(self)@, final(self)@, *old(w), *final(w), buf@, r->Ok_0 as int))
+                    &&& (r is Ok && old(w).healthy ==> r->Ok_0 == buf@.len())
+                    &&& (r is Err ==> final(self)@ == old(self)@ && final(w).fs == old(w).fs && final(w).hist == old(w).hist && final(w).healthy == old(w).healthy)
+                },
+                file_buffered(*old(self)) ==> *final(w) == *old(w) && final(self)@ == old(self)@
+                    && (r is Ok ==> r->Ok_0 <= buf@.len() && file_pending(*final(self)) == file_pending(*old(self)) + buf@.subrange(0, r->Ok_0 as int))
+                    && (r is Err ==> file_pending(*final(self)) == file_pending(*old(self))),
                 old(w).healthy ==> r is Ok,
         { unimplemented!() }
         #[verifier::external_body]
         fn flush(&mut self, Tracked(w): Tracked<&mut World>) -> (r: io::Result<()>)
-            ensures final(self)@ == old(self)@, *final(w) == *old(w), old(w).healthy ==> r is Ok,
+            ensures
+                file_buffered(*final(self)) == file_buffered(*old(self)),
+                !file_buffered(*old(self)) ==> final(self)@ == old(self)@ && *final(w) == *old(w),
+                // a buffered (async runtime) handle writes its buffer now, as one write_all would
+                file_buffered(*old(self)) ==> exists|k: int| #[trigger] file_write_post(old(self)@, final(self)@, *old(w), *final(w), file_pending(*old(self)), k)
+                    && (r is Ok ==> k == file_pending(*old(self)).len() && file_pending(*final(self)) == Seq::<u8>::empty()),
+                old(w).healthy ==> r is Ok,
         { unimplemented!() }
         /// ASSUMED: for an O_APPEND descriptor the chunks of one write_all land contiguously
         /// (no other writer in between: quiescence)
         #[verifier::external_body]
         fn write_all(&mut self, buf: &[u8], Tracked(w): Tracked<&mut World>) -> (r: io::Result<()>)
             ensures
-                exists|k: int| #[trigger] file_write_post(old(self)@, final(self)@, *old(w), *final(w), buf@, k) && (r is Ok ==> k == buf@.len()),
+                file_buffered(*final(self)) == file_buffered(*old(self)),
+                !file_buffered(*old(self)) ==> exists|k: int| #[trigger] file_write_post(old(self)@, final(self)@, *old(w), *final(w), buf@, k) && (r is Ok ==> k == buf@.len()),
+                file_buffered(*old(self)) ==> *final(w) == *old(w) && final(self)@ == old(self)@ && r is Ok
+                    && file_pending(*final(self)) == file_pending(*old(self)) + buf@,
                 old(w).healthy ==> r is Ok,
         { unimplemented!() }
     }
